@@ -352,6 +352,9 @@ func ParseSliceHeader(nalu []byte, spsMap map[uint32]*SPS, ppsMap map[uint32]*PP
 		pps.SliceGroupMapType <= 5 {
 		picSizeInMapUnits := pps.PicSizeInMapUnitsMinus1 + 1
 		sliceGroupChangeRate := pps.SliceGroupChangeRateMinus1 + 1
+		if sliceGroupChangeRate == 0 { // slice_group_change_rate_minus1 was the largest uint
+			return nil, fmt.Errorf("invalid slice_group_change_rate_minus1 %d", pps.SliceGroupChangeRateMinus1)
+		}
 		nrBits := int(math.Ceil(math.Log2(float64(picSizeInMapUnits/sliceGroupChangeRate + 1))))
 		sh.SliceGroupChangeCycle = uint32(r.Read(nrBits))
 	}
